@@ -1,7 +1,7 @@
 //! One entry per property: which families it runs, which clauses count, what the evidence says.
 use crate::common::*;
 use crate::orch::*;
-use crate::{fam_lit, lit, rc11};
+use crate::{fam_lit, fam_path, fam_sync, lit, rc11, sync};
 use serde_json::{json, Value};
 use std::time::{Duration, Instant};
 
@@ -9,6 +9,8 @@ use std::time::{Duration, Instant};
 pub fn work(family: &str, prop: &str, tier: u8, seed: u64, idx: usize) -> Rec {
     match family {
         "lit" => fam_lit::work(prop, tier, seed, idx),
+        "path" => fam_path::work(prop, tier, seed, idx),
+        "sync" => fam_sync::work(prop, tier, seed, idx),
         _ => {
             let mut r = Rec::new(idx);
             r.status = format!("inconclusive:unknown-family-{}", family);
@@ -23,66 +25,158 @@ fn samples_from(recs: &[Rec], n: usize) -> Vec<Value> {
         v.push(json!({"program": r.prog, "iterations": r.iters, "loom_outcomes": r.extra["loom_outcomes"], "reference_outcomes": r.extra["reference_outcomes"]}));
     }
     if v.is_empty() {
+        for r in recs.iter().filter(|r| r.nontrivial && r.extra.as_object().map(|o| o.len() > 1).unwrap_or(false)).take(n) {
+            v.push(json!({"program": r.prog, "model_runs": r.runs, "iterations": r.iters, "observed": r.extra}));
+        }
+    }
+    if v.is_empty() {
         for r in recs.iter().filter(|r| r.nontrivial).take(n) {
-            v.push(json!({"program": r.prog, "iterations": r.iters, "distinct_outcomes": r.outcomes}));
+            v.push(json!({"program": r.prog, "model_runs": r.runs, "iterations": r.iters, "distinct_outcomes": r.outcomes}));
         }
     }
     v
 }
 
-const WD: Duration = Duration::from_secs(600);
+const WD: Duration = Duration::from_secs(900);
+
+struct Def {
+    /// (family, number of jobs)
+    parts: Vec<(&'static str, usize)>,
+    clauses: Vec<&'static str>,
+    rule: &'static str,
+    trusted: Vec<&'static str>,
+    assumptions: Vec<&'static str>,
+    min_nontrivial: usize,
+}
+
+fn def(prop: &str, tier: u8) -> Option<Def> {
+    let path_trusted = vec!["harness/src/pathmon.rs (trie monitor)", "loom feature verif-hooks (read-only snapshot of Path.branches at the end of every iteration)", "harness/src/lit.rs interpreter"];
+    Some(match prop {
+        "C01" => Def {
+            parts: vec![("lit", fam_lit::total(prop, tier)), ("sync", fam_sync::total(prop, tier))],
+            clauses: vec!["missing_sc", "unexpected_panic", "missing_outcome", "missed_deadlock", "loom_internal_panic", "process_died"],
+            rule: "sync part: every 2-thread x <= 2-op (thorough 3) program over a mutex, try_lock, a SeqCst atomic and join + seeded random programs over mutexes, rwlock, condvar, Notify, channel, park/unpark, join, atomics (2-4 threads); the reference machine enumerates every interleaving, every reference result (or the deadlock) must be produced. litmus part: classic shapes + every 2-thread x 2-op SeqCst program over 2 locations + every 3-thread 1-op RMW/CAS program + seeded random programs (2-4 threads, 1-3 locations, <= 8 memory events); a program is non-trivial when two threads touch a location one of them writes AND the SC reference has >= 2 outcomes; distinct = distinct program texts",
+            trusted: vec!["harness/src/rc11.rs outcomes_sc (explicit-state interleaving enumeration)", "harness/src/sync.rs reference machine", "harness/src/lit.rs and sync.rs interpreters"],
+            assumptions: vec!["bounded straight-line programs only"],
+            min_nontrivial: 100,
+        },
+        "C02" | "C03" => Def {
+            parts: vec![("lit", fam_lit::total(prop, tier))],
+            clauses: if prop == "C02" { vec!["missing_strong", "unexpected_panic"] } else { vec!["forbidden_weak", "unexpected_panic"] },
+            rule: "classic litmus shapes in every ordering assignment + every 2-thread x 2-op program over one location (loads/stores/swaps in every ordering; thorough: plus fences) + seeded random programs (2-4 threads, 1-3 locations, every ordering, fences, swap/CAS/fetch_add, <= 8 memory events, <= 6 stores per location); non-trivial = two threads touch a location one of them writes AND the reference allows >= 2 outcomes; distinct = distinct program texts",
+            trusted: vec!["harness/src/rc11.rs (axiomatic RC11 checker, validated by `lv selftest` against published litmus verdicts)", "harness/src/lit.rs interpreter"],
+            assumptions: vec![if prop == "C02" { "strong variant: RC11 as published; outcomes needing load buffering excluded by acyclic(sb ∪ rf)" } else { "weak variant: C++20 release sequences, SeqCst accesses treated as AcqRel, SeqCst fences kept" }],
+            min_nontrivial: 100,
+        },
+        "C14" => Def {
+            parts: vec![("path", fam_path::total(prop, tier))],
+            clauses: vec!["path_repeat", "path_not_dfs", "path_prefix", "path_kind", "path_order", "path_incomplete", "path_count", "unexpected_panic"],
+            rule: "classic litmus shapes + seeded random litmus programs; the decision path of every iteration is recorded through the iteration hook and checked online: all sequences distinct, prefix-contiguous (depth-first), alternatives taken in listed order, nothing left unexplored, hook calls = iterations; non-trivial = the model ran >= 2 iterations",
+            trusted: path_trusted.clone(),
+            assumptions: vec!["termination is decided in its bounded form: the run must end below the iteration cap"],
+            min_nontrivial: 100,
+        },
+        "C15" => Def {
+            parts: vec![("path", fam_path::total(prop, tier))],
+            clauses: vec!["preemption_bound_exceeded", "bounded_not_subset", "bounded_not_monotone", "bounded_full_differs", "path_repeat", "path_not_dfs", "path_order", "unexpected_panic"],
+            rule: "each program is run unbounded and with preemption_bound = 0..6 and a bound >= its number of operations (9 model runs); preemptions are counted independently of loom's counter, from the decision paths and from the client-boundary log; result sets compared across bounds; non-trivial = >= 2 threads with operations and >= 2 unbounded results",
+            trusted: path_trusted.clone(),
+            assumptions: vec!["the log-based count is a lower bound of the true preemption count and is only required to be <= n"],
+            min_nontrivial: 50,
+        },
+        "C19" => Def {
+            parts: vec![("path", fam_path::total(prop, tier))],
+            clauses: vec!["ctrl_explored_in_region", "ctrl_not_subset", "ctrl_lost_outside_region", "ctrl_region_not_marked", "max_branches", "max_permutations", "max_duration", "max_threads", "path_repeat", "path_not_dfs", "path_order", "unexpected_panic"],
+            rule: "each program is run unrestricted and with six placements of stop_exploring/explore/skip_branch/expect_explicit_explore, with max_branches = longest path - 1 / exactly the longest path, eight (max_permutations, checkpoint interval) pairs around the exact iteration count, max_duration 0 and 1 h; non-trivial = >= 2 iterations and longest path >= 2",
+            trusted: path_trusted.clone(),
+            assumptions: vec!["equality with the unrestricted result set is only demanded for regions that provably contain no decision with two alternatives (DESIGN §5-C19)", "wall clock is used only through the two extreme durations"],
+            min_nontrivial: 50,
+        },
+        "C05" => Def {
+            parts: vec![("sync", fam_sync::total(prop, tier))],
+            clauses: vec!["false_deadlock", "missed_deadlock", "loom_internal_panic", "process_died", "wrong_failure"],
+            rule: "every 2-thread x <= 3-op program over two mutexes, park/unpark and join + pinned shapes of the property text + seeded random programs (2-4 threads over mutexes, rwlock, condvar, Notify, channel, park/unpark, join; 15 % share their objects through loom::sync::Arc); the reference machine decides can_deadlock by explicit-state search; non-trivial = >= 2 threads with operations and >= 2 reference terminals or >= 2 loom iterations",
+            trusted: vec!["harness/src/sync.rs reference machine (documented std/loom semantics, DESIGN §4.1)", "harness/src/sync.rs interpreter"],
+            assumptions: vec!["no re-entrant locking, no recursive reads, one Notify waiter, only the main thread joins and receives"],
+            min_nontrivial: 100,
+        },
+        "C07" | "C08" | "C09" => Def {
+            parts: vec![("sync", fam_sync::total(prop, tier))],
+            clauses: vec!["replay_invalid", "extra_outcome", "missing_outcome", "false_race", "false_deadlock", "missed_deadlock", "loom_internal_panic", "false_leak", "missed_leak", "process_died", "missed_race"],
+            rule: "enumerated core of the property's primitives (all 2-thread programs up to 3-4 ops) + pinned shapes + seeded random programs; every iteration's client-boundary log is replayed on the reference machine (each return must be enabled and carry the value the specification gives at that instant), outcome sets are compared with the reference in both directions, cells accessed under the primitives' ordering guarantees must not be reported as races; non-trivial = >= 2 threads with operations and >= 2 reference terminals or loom iterations",
+            trusted: vec!["harness/src/sync.rs reference machine + replay monitor", "harness/src/sync.rs interpreter"],
+            assumptions: vec!["notify_one: completeness assumes loom's FIFO choice, soundness accepts any waiter", "SeqCst atomics only give a lower bound (stale reads are legal for loom)"],
+            min_nontrivial: 100,
+        },
+        "C13" => Def {
+            parts: vec![("path", fam_path::total(prop, tier))],
+            clauses: vec!["nondeterministic", "checkpoint_resume", "checkpoint_failure_replay", "unexpected_panic"],
+            rule: "programs with 3..=120 (thorough 400) iterations; per program: two runs in one process and two fresh processes compared (outcomes, execution orders, decision paths); every stop point k in 1..N x intervals 1,2,3,7 and a random one through a real checkpoint file; process aborts at the start / in the middle of iteration k resumed in a fresh process; three failing iterations (first, middle, last) reloaded from their checkpoint; non-trivial = program in the iteration range",
+            trusted: path_trusted,
+            assumptions: vec!["a crash while loom writes the checkpoint file is not injected"],
+            min_nontrivial: 10,
+        },
+        _ => return None,
+    })
+}
+
+/// Orchestrator-side description of a program whose worker died (timeouts stay inconclusive).
+fn died(family: &str, prop: &str, tier: u8, seed: u64, idx: usize, status: &str) -> Option<Rec> {
+    if status == "timeout" {
+        return None;
+    }
+    match family {
+        "sync" => Some(fam_sync::describe_died(prop, tier, seed, idx, status)),
+        _ => None,
+    }
+}
 
 pub fn check(prop: &str, tier: u8, seed: u64) -> i32 {
     let t0 = Instant::now();
-    match prop {
-        "C01" => {
-            let recs = run_family("lit", prop, tier, seed, fam_lit::total(prop, tier), WD);
-            finish(
-                Check {
-                    prop,
-                    tier,
-                    seed,
-                    clauses: &["missing_sc", "unexpected_panic"],
-                    rule: "litmus part: classic shapes + every 2-thread x 2-op SeqCst program over 2 locations + every 3-thread 1-op RMW/CAS program + seeded random programs (2-4 threads, 1-3 locations, <= 8 memory events); a program is non-trivial when two threads touch a location one of them writes AND the SC reference has >= 2 outcomes; distinct = distinct program texts".into(),
-                    trusted_base: vec!["harness/src/rc11.rs outcomes_sc (explicit-state interleaving enumeration)".into(), "harness/src/lit.rs interpreter".into()],
-                    assumptions: vec!["bounded straight-line programs only".into()],
-                    extra: json!({}),
-                    samples: samples_from(&recs, 5),
-                    exhaustive: false,
-                    min_nontrivial: 100,
-                    sanitizer: Value::Null,
-                },
-                &recs,
-                t0,
-            )
-        }
-        "C02" | "C03" => {
-            let recs = run_family("lit", prop, tier, seed, fam_lit::total(prop, tier), WD);
-            let clauses: &[&str] = if prop == "C02" { &["missing_strong", "unexpected_panic"] } else { &["forbidden_weak", "unexpected_panic"] };
-            finish(
-                Check {
-                    prop,
-                    tier,
-                    seed,
-                    clauses,
-                    rule: "classic litmus shapes in every ordering assignment + every 2-thread x 2-op program over one location (loads/stores/swaps in every ordering; thorough: plus fences) + seeded random programs (2-4 threads, 1-3 locations, every ordering, fences, swap/CAS/fetch_add, <= 8 memory events, <= 6 stores per location); non-trivial = two threads touch a location one of them writes AND the reference allows >= 2 outcomes; distinct = distinct program texts".into(),
-                    trusted_base: vec!["harness/src/rc11.rs (axiomatic RC11 checker, validated by `lv selftest` against published litmus verdicts)".into(), "harness/src/lit.rs interpreter".into()],
-                    assumptions: vec![if prop == "C02" { "strong variant: RC11 as published; outcomes needing load buffering excluded by acyclic(sb ∪ rf)".into() } else { "weak variant: C++20 release sequences, SeqCst accesses treated as AcqRel, SeqCst fences kept".into() }],
-                    extra: json!({}),
-                    samples: samples_from(&recs, 5),
-                    exhaustive: false,
-                    min_nontrivial: 100,
-                    sanitizer: Value::Null,
-                },
-                &recs,
-                t0,
-            )
-        }
-        _ => {
+    let d = match def(prop, tier) {
+        Some(d) => d,
+        None => {
             eprintln!("lv: property {} has no check", prop);
-            2
+            return 2;
         }
+    };
+    let mut recs: Vec<Rec> = Vec::new();
+    for (fam, total) in &d.parts {
+        let mut r = run_family(fam, prop, tier, seed, *total, WD, died);
+        let base = recs.len();
+        for x in r.iter_mut() {
+            x.idx += base;
+        }
+        recs.extend(r);
     }
+    let mut extra = serde_json::Map::new();
+    // per-record extras that are worth aggregating
+    let mut stop_pairs = 0u64;
+    for r in &recs {
+        stop_pairs += r.extra.get("stop_resume_pairs").and_then(|v| v.as_u64()).unwrap_or(0);
+    }
+    if stop_pairs > 0 {
+        extra.insert("stop_resume_pairs".into(), json!(stop_pairs));
+    }
+    let clauses: Vec<&str> = d.clauses.clone();
+    finish(
+        Check {
+            prop,
+            tier,
+            seed,
+            clauses: &clauses,
+            rule: d.rule.to_string(),
+            trusted_base: d.trusted.iter().map(|s| s.to_string()).collect(),
+            assumptions: d.assumptions.iter().map(|s| s.to_string()).collect(),
+            extra: Value::Object(extra),
+            samples: samples_from(&recs, 5),
+            exhaustive: false,
+            min_nontrivial: d.min_nontrivial,
+            sanitizer: Value::Null,
+        },
+        &recs,
+        t0,
+    )
 }
 
 pub fn replay(path: &str) -> i32 {
@@ -101,6 +195,14 @@ pub fn replay(path: &str) -> i32 {
         "lit" => {
             let p: lit::Prog = serde_json::from_value(v["program_json"].clone()).expect("program_json");
             fam_lit::judge(prop, &p, &mut rec, true, 1);
+        }
+        "sync" => {
+            let p: sync::SProg = serde_json::from_value(v["program_json"].clone()).expect("program_json");
+            fam_sync::judge(prop, &p, &mut rec, 1, true);
+        }
+        "path" => {
+            let p: lit::Prog = serde_json::from_value(v["program_json"].clone()).expect("program_json");
+            fam_path::judge(prop, &p, &mut rec, 1, v["seed"].as_u64().unwrap_or(0), v["idx"].as_u64().unwrap_or(0) as usize);
         }
         _ => {
             eprintln!("unknown family in replay file");
